@@ -1,4 +1,5 @@
 import Drv.Pure
+import Drv.Stat
 open Lean Drv
 
 /-- which repairs (`fix:` commits) the model follows; the driver always runs the repaired model,
@@ -9,6 +10,7 @@ def handle (j : Json) : Except String Json := do
   | "cmp" => hCmp j
   | "pathfn" => hPathFn j
   | "validate" => hValidate j
+  | "diff" => hDiff j
   | _ => throw s!"bad-op {op}"
 
 partial def loop (h : IO.FS.Stream) (out : IO.FS.Stream) : IO Unit := do
